@@ -362,6 +362,22 @@ impl Drop for SpanDropper {
 }
 
 /// payload of the panics the harness raises on behalf of user code
+/// `Span::enter_with_parents` takes any iterator: the parents are handed over in the forms callers
+/// use (an exact-size map over a list, a collected `Vec`, lazily filtering adapters whose
+/// `size_hint` has a lower bound of 0, a chain), chosen by the span's label.
+fn enter_with_parents_varied(name: String, l: u32, ps: Vec<&Span>) -> Span {
+    match l % 5 {
+        0 => Span::enter_with_parents(name, ps.iter().copied()),
+        1 => Span::enter_with_parents(name, ps),
+        2 => Span::enter_with_parents(name, ps.iter().copied().filter(|_| true)),
+        3 => Span::enter_with_parents(name, ps.iter().map(|p| Some(*p)).filter_map(|p| p)),
+        _ => {
+            let (a, b) = ps.split_at(ps.len() / 2);
+            Span::enter_with_parents(name, a.iter().copied().chain(b.iter().copied()))
+        }
+    }
+}
+
 struct UserPanic;
 
 fn run_plan() -> AOutcome {
@@ -529,7 +545,7 @@ pub fn exec_op(ctx: &mut WorkerCtx, op: &Op) {
                 if *single {
                     Span::enter_with_parent(sname(*l), &m[&parents[0]])
                 } else {
-                    Span::enter_with_parents(sname(*l), parents.iter().map(|p| &m[p]))
+                    enter_with_parents_varied(sname(*l), *l as u32, parents.iter().map(|p| &m[p]).collect())
                 }
             };
             t1_override = Some(now_ns());
@@ -734,7 +750,9 @@ pub fn exec_op(ctx: &mut WorkerCtx, op: &Op) {
                     None => AdapterObj::Si(Box::pin(Inner)),
                 },
                 AKind::Duplex => match sp {
-                    Some(s) => AdapterObj::Du(Box::pin(fastrace_futures::StreamExt::in_span(Inner, s))),
+                    // both traits offer `in_span`; a duplex object may be wrapped through either
+                    Some(s) if *a % 2 == 0 => AdapterObj::Du(Box::pin(fastrace_futures::StreamExt::in_span(Inner, s))),
+                    Some(s) => AdapterObj::Du(Box::pin(fastrace_futures::SinkExt::<u32>::in_span(Inner, s))),
                     None => AdapterObj::Du(Box::pin(Inner)),
                 },
             };
@@ -967,7 +985,7 @@ pub fn exec_op(ctx: &mut WorkerCtx, op: &Op) {
                         if *single {
                             Span::enter_with_parent(sname(*l), &m[&parents[0]])
                         } else {
-                            Span::enter_with_parents(sname(*l), parents.iter().map(|p| &m[p]))
+                            enter_with_parents_varied(sname(*l), *l as u32, parents.iter().map(|p| &m[p]).collect())
                         }
                     };
                     let sp = sp.with_properties(|| {
